@@ -221,6 +221,38 @@ def judge_factory(rec, cfg):
                     if x.startswith("put ") and a["proc"] in spawn_t and a["t"] != spawn_t[a["proc"]]:
                         v("C09", "waited", f"non-blocking {kind} {nid} waited from t={spawn_t[a['proc']]} to t={a['t']} with a finished item")
                 pdisc = d
+        # C09, non-blocking combiner / splitter: a worker may decide about several units in one activation (a dropped unit
+        # does not suspend it), so the can_put probes are grouped per decision first
+        if kind in ("combiner", "splitter") and not c.get("blocking", True):
+            pdisc = 0; spawn_t = {}
+            nout_ = len(n.out_edges); fa = c.get("out", "FIRST_AVAILABLE") == "FIRST_AVAILABLE"
+            for a in acts:
+                if a["stats"] is None: continue
+                d = a["stats"]["num_item_discarded"]
+                cans = [x for x in a["calls"] if x.startswith("can ")]
+                spawned = [int(x.split()[1][1:]) for x in a["calls"] if x.startswith("spawn ")]
+                if a["kind"] == "worker" and cans:
+                    groups = []; cur = []
+                    for x in cans:
+                        cur.append(x.endswith(" 1"))
+                        if cur[-1] or not fa or len(cur) == nout_:
+                            groups.append(cur); cur = []
+                    if cur: groups.append(cur)
+                    n_drop = sum(1 for g in groups if not any(g)); n_push = sum(1 for g in groups if any(g))
+                    if d - pdisc != n_drop:
+                        v("C09", "discard-count", f"non-blocking {kind} {nid} at t={a['t']}: {n_drop} unit(s) found no out-edge with room and "
+                                                   f"{n_push} found one (can_put answers {groups}), but the discard count went {pdisc} -> {d}")
+                    if n_push != len(spawned):
+                        v("C09", "no-push-with-room", f"non-blocking {kind} {nid} at t={a['t']}: {n_push} unit(s) found room but {len(spawned)} push(es) started")
+                elif d != pdisc and rec.crash is None:
+                    v("C09", "discard-without-probe", f"non-blocking {kind} {nid}: discard count rose at t={a['t']} without a can_put probe")
+                if a["kind"] == "worker" and spawned and not cans:
+                    v("C09", "push-without-probe", f"non-blocking {kind} {nid} at t={a['t']}: a push started although no out-edge was probed for room in this step")
+                for p_ in spawned: spawn_t[p_] = a["t"]
+                for x in a["calls"]:
+                    if x.startswith("put") and a["proc"] in spawn_t and a["t"] != spawn_t[a["proc"]]:
+                        v("C09", "waited", f"non-blocking {kind} {nid} waited from t={spawn_t[a['proc']]} to t={a['t']} with a finished unit")
+                pdisc = d
         # C15: policies obeyed and recorded truthfully
         if kind == "machine":
             nin = len(n.in_edges); nout = len(n.out_edges)
@@ -379,6 +411,41 @@ def judge_pack_node(rec, nid, kind, n, c, acts, put_by, got_by, emit, pending, w
         for (u, what, t, content) in emit:
             if what == "put" and content:
                 v("C16", "pallet-not-empty", f"splitter {nid} passed on pallet {u} still carrying {list(content)}")
+    # C15: FIRST_AVAILABLE takes the lowest-index edge whose token is triggered at the instant of choice (splitter in-edges; out-edges of
+    # both kinds); a user callable is consulted once per routing decision and obeyed
+    awaited = {}
+    for a in acts:
+        p_ = a["proc"]; calls = a["calls"]
+        res = [(int(x.split()[1][1:]), int(x.split()[2][1:])) for x in calls if x.startswith("rg ") or x.startswith("rp ")]
+        use = [x for x in calls if x.startswith(("get ", "put ", "putU "))]
+        fa_side = (p_ != 0 and c.get("out", "FIRST_AVAILABLE") == "FIRST_AVAILABLE") or \
+                  (p_ == 0 and kind == "splitter" and c.get("inp", "FIRST_AVAILABLE") == "FIRST_AVAILABLE")
+        if fa_side and use and p_ in awaited and len(awaited[p_]) > 1:
+            e_used = int(use[0].split()[1][1:])
+            trig = set(a["trig"])
+            cand = [e for (e, t) in awaited[p_] if t in trig]
+            if cand and e_used != cand[0]:
+                v("C15", "first-available", f"{kind} {nid} at t={a['t']}: FIRST_AVAILABLE used edge {e_used} although edge {cand[0]} (lower index) was able to serve")
+        if fa_side and p_ in awaited and len(awaited[p_]) > 1 and not use:
+            # the choice may be made in one step (cancel every other request, ask for the worker slot) and used in a later one
+            gone = set(int(x.split()[2][1:]) for x in calls if x.startswith(("cg ", "cp ")))
+            kept = [e for (e, t) in awaited[p_] if t not in gone]
+            trig = set(a["trig"])
+            cand = [e for (e, t) in awaited[p_] if t in trig]
+            if gone and len(kept) == 1 and cand and kept[0] != cand[0]:
+                v("C15", "first-available", f"{kind} {nid} at t={a['t']}: FIRST_AVAILABLE kept its request on edge {kept[0]} and withdrew the others although "
+                                            f"edge {cand[0]} (lower index) had granted at that instant")
+            if gone: awaited.pop(p_, None)
+        if res: awaited[p_] = res
+        elif use: awaited.pop(p_, None)
+        for j, x in enumerate(calls):
+            if not x.startswith("sel "): continue
+            k = int(x.split()[1])
+            nxt = [y for y in calls[j + 1:] if y.startswith(("rg ", "rp ", "can ", "sel ", "crash"))]
+            if not nxt or nxt[0].startswith("sel "):
+                v("C15", "user-once", f"{kind} {nid} at t={a['t']}: the selector was consulted (answer {k}) without a routing decision following it")
+            elif not nxt[0].startswith("crash") and k >= 0 and int(nxt[0].split()[1][1:]) != k:
+                v("C15", "user-obeyed", f"{kind} {nid} at t={a['t']}: the selector answered {k} but edge {nxt[0].split()[1]} was used")
     # C15: the recorded out-edge history is the routing that happened
     outsel = list(st["out_edge_selection"]); outp = c.get("out", "FIRST_AVAILABLE")
     puts = [int(x.split()[1][1:]) for a in acts for x in a["calls"] if x.startswith("put ")]
